@@ -47,7 +47,14 @@ pub const DATATYPES: &[&str] = &[
 pub const STRINGS: &[&str] =
     &["", "a", "chat", "a\"b", "a\\b", "l1\nl2", "c\rd", "tab\there", "é\u{10000}z", "\"", "\\", "\\\"", "'", "a\u{0}b", "\u{8}\u{c}", "\"\"\"", "x\\", "\n"];
 
-pub const TAGS: &[&str] = &["en", "EN", "en-GB", "fr", "x-a-b9"];
+pub const TAGS: &[&str] = &[
+    "en", "EN", "en-GB", "fr", "x-a-b9", "de-CH-1996", "zh-Hant", "sr-Latn-RS", "i-klingon", "es-419", "EN-us", "a", "abcdefgh-12345678", "de-DE-u-co-phonebk",
+];
+
+/// pieces long strings are assembled from (runs of quotes, escapes, line ends, delimiters of the surrounding syntax)
+pub const STRING_ATOMS: &[&str] = &[
+    " ", "\"\"\"", "'''", "\\n", "\t", "é", "\u{10ffff}", "\u{7f}", "\u{85}", "\u{2028}", "#", "<", ">", "@en", "^^", "{|", "|}", "\"@", "\\u0041", "\r\n", ".", ";", "word",
+];
 
 pub const NAMESPACES: &[&str] = &[
     "http://ex.org/",
@@ -68,6 +75,12 @@ pub const LOCAL_ATOMS: &[&str] = &[
 pub const PREFIXES: &[&str] = &["", "a", "ab", "ex", "rdf", "xsd", "é", "a.b", "a-b", "a_", "p0", "a\u{b7}"];
 
 pub const INDENTS: &[&str] = &["  ", "", " ", "\t", "    ", "\n", " \t", "\r\n"];
+
+/// indentations `with_indentation` may or may not accept: Unicode white space that is not Turtle white space
+/// (`WS ::= #x20 | #x9 | #xD | #xA`), ASCII form feed / vertical tab, and strings that are not white space at all
+pub const ODD_INDENTS: &[&str] = &[
+    "\u{a0}", "\u{3000}", "\u{2003}", " \u{a0}", "\u{c}", "\u{b}", "\u{85}", "\u{1680}", "\u{2028}", "\u{205f}\t", "\u{200b}", "x", "#", " .", "\u{feff}", "\u{1c}",
+];
 
 pub const IRIS: &[&str] = &[
     "http://ex.org/a",
@@ -123,6 +136,13 @@ pub struct B<'a> {
     free: Vec<String>,
     pub trig: bool,
     pub tags: Vec<&'static str>,
+    /// labels handed out beyond the small pool
+    next: usize,
+    /// longest well-formed collection generated
+    pub max_list: usize,
+    /// deepest nesting of blank-node subtrees generated
+    pub max_depth: usize,
+    pub long_strings: usize,
 }
 
 impl<'a> B<'a> {
@@ -133,12 +153,21 @@ impl<'a> B<'a> {
             let j = rng.below(i + 1);
             free.swap(i, j);
         }
-        B { rng, quads: vec![], free, trig, tags: vec![] }
+        B { rng, quads: vec![], free, trig, tags: vec![], next: 0, max_list: 0, max_depth: 0, long_strings: 0 }
     }
     pub fn fresh(&mut self) -> T {
         match self.free.pop() {
             Some(l) => T::Bnode(l),
-            None => T::Bnode(format!("q{}", self.rng.below(1000))),
+            None => {
+                // large datasets: labels stay pairwise distinct (sorted between the pool's labels: digits, letters)
+                self.next += 1;
+                let k = self.next;
+                T::Bnode(match k % 3 {
+                    0 => format!("n{}", k),
+                    1 => format!("{}", 100 + k),
+                    _ => format!("B{}x", k),
+                })
+            }
         }
     }
     pub fn add(&mut self, s: T, p: T, o: T, g: &Option<T>) {
@@ -160,10 +189,34 @@ impl<'a> B<'a> {
             _ => iri("x:p"),
         }
     }
+    /// a lexical form: a corpus string, or (1 in 4) a long one assembled from corpus strings and syntax atoms
+    pub fn a_string(&mut self) -> String {
+        if !self.rng.chance(1, 4) {
+            return ps(&mut self.rng, STRINGS).to_string();
+        }
+        self.long_strings += 1;
+        let mut s = String::new();
+        for _ in 0..self.rng.range(2, 9) {
+            if self.rng.chance(1, 2) {
+                s.push_str(ps(&mut self.rng, STRINGS));
+            } else {
+                s.push_str(ps(&mut self.rng, STRING_ATOMS));
+            }
+        }
+        s
+    }
     pub fn a_literal(&mut self) -> T {
         match self.rng.below(4) {
-            0 => T::Lang(ps(&mut self.rng, STRINGS).to_string(), ps(&mut self.rng, TAGS).to_string()),
-            1 => lit(ps(&mut self.rng, STRINGS), "http://www.w3.org/2001/XMLSchema#string"),
+            0 => {
+                // language-tagged strings, among them texts that look like numeric / boolean shorthands
+                let l = if self.rng.chance(1, 5) { ps(&mut self.rng, LEXICALS).to_string() } else { self.a_string() };
+                T::Lang(l, ps(&mut self.rng, TAGS).to_string())
+            }
+            1 => {
+                let l = self.a_string();
+                let d = if self.rng.chance(1, 6) { "http://ex.org/dt" } else { "http://www.w3.org/2001/XMLSchema#string" };
+                lit(&l, d)
+            }
             _ => {
                 // mostly combinations on which the shorthand decision is the grammar's; the known-bad classes
                 // (finding C04-numeric-dot, rdf:nil as datatype) are covered by `numeric`, `nil` and the `lit` requests
@@ -294,6 +347,7 @@ impl<'a> B<'a> {
         if n == 0 {
             return (rdf("nil"), vec![]);
         }
+        self.max_list = self.max_list.max(n);
         let cells: Vec<T> = (0..n).map(|_| self.fresh()).collect();
         for i in 0..n {
             let item = self.list_item(depth, g);
@@ -465,7 +519,26 @@ impl<'a> B<'a> {
             let (q, r) = (self.a_pred(), self.a_ground_object());
             self.add(t.clone(), q, r, g);
         }
-        match self.rng.below(5) {
+        match self.rng.below(6) {
+            5 => {
+                // quoted triples nested two / three deep, in subject and in object position
+                self.tags.push("quoted_deep");
+                let t2 = tr(t.clone(), iri("x:q2"), self.a_ground_object());
+                let t3 = if self.rng.chance(1, 2) { tr(iri("x:s3"), iri("x:q3"), t2.clone()) } else { tr(t2.clone(), iri("x:q3"), t.clone()) };
+                let (p, o) = (self.a_pred(), self.a_ground_object());
+                self.add(t3.clone(), p, o, g);
+                if self.rng.chance(1, 2) {
+                    let s = self.an_iri();
+                    self.add(s, iri("x:says"), t3, g);
+                }
+                if self.rng.chance(1, 2) {
+                    // the middle one asserted: an annotation whose subject is itself a quoted triple
+                    if let T::Triple(b) = &t2 {
+                        let [a, b2, c] = (**b).clone();
+                        self.add(a, b2, c, g);
+                    }
+                }
+            }
             0 => {
                 // quoted triple in object position
                 self.tags.push("quoted_object");
@@ -537,6 +610,184 @@ impl<'a> B<'a> {
         }
     }
 
+    // ------------------------------------------------------------ large datasets (size-dependent code:
+    // `find_subject`'s binary search over many subjects of one graph, `next_graph` over many graphs, long
+    // collections, long predecessor walks in `build_labelled`, deep writer recursion)
+
+    /// a chain of nested blank-node subtrees `depth` deep under `parent`
+    fn deep_chain(&mut self, parent: T, depth: usize, g: &Option<T>) {
+        self.max_depth = self.max_depth.max(depth);
+        let mut cur = parent;
+        for _ in 0..depth {
+            let b = self.fresh();
+            let p = self.a_pred();
+            self.add(cur.clone(), p, b.clone(), g);
+            if self.rng.chance(1, 3) {
+                let (p, o) = (self.a_pred(), self.a_ground_object());
+                self.add(b.clone(), p, o, g);
+            }
+            cur = b;
+        }
+        let (p, o) = (self.a_pred(), self.a_ground_object());
+        self.add(cur, p, o, g);
+    }
+
+    fn big_subjects(&mut self, g: &Option<T>) {
+        self.tags.push("big_subjects");
+        let n = self.rng.range(18, 70);
+        for k in 0..n {
+            let s = match self.rng.below(8) {
+                0 => self.fresh(), // unreferenced blank node: a Root among the subjects
+                _ => iri(&format!("http://ex.org/s{}", k * 7 % 101)),
+            };
+            for _ in 0..self.rng.range(1, 2) {
+                let p = self.a_pred();
+                match self.rng.below(10) {
+                    0..=2 => {
+                        // an inlinable blank node with properties: looked up with find_subject when written
+                        let b = self.fresh();
+                        self.add(s.clone(), p, b.clone(), g);
+                        for _ in 0..self.rng.range(0, 2) {
+                            let (p2, o2) = (self.a_pred(), self.a_ground_object());
+                            self.add(b.clone(), p2, o2, g);
+                        }
+                    }
+                    3 | 4 => {
+                        // an annotated statement: the quoted triple is a subject of this graph, looked up from write_object
+                        let o = self.an_iri_not_nil();
+                        self.add(s.clone(), p.clone(), o.clone(), g);
+                        let (q, r) = (self.a_pred(), self.a_ground_object());
+                        self.add(tr(s.clone(), p, o), q, r, g);
+                    }
+                    5 => {
+                        let n = self.rng.range(1, 3);
+                        let (head, _) = self.list(n, 0, g);
+                        self.add(s.clone(), p, head, g);
+                    }
+                    _ => {
+                        let o = self.a_ground_object();
+                        self.add(s.clone(), p, o, g);
+                    }
+                }
+            }
+        }
+    }
+
+    fn big_list(&mut self, g: &Option<T>) {
+        self.tags.push("big_list");
+        let n = self.rng.range(12, 60);
+        let (head, cells) = self.list(n, 1, g);
+        match self.rng.below(6) {
+            0 => {
+                let (p, o) = (self.a_pred(), self.a_ground_object());
+                self.add(head, p, o, g);
+            }
+            1 => {}
+            _ => {
+                let (s, p) = (self.an_iri(), self.a_pred());
+                self.add(s, p, head, g);
+            }
+        }
+        if self.rng.chance(1, 4) {
+            // a defect deep inside the chain: only the tail after it is a collection
+            self.tags.push("big_list_broken");
+            let c = cells[self.rng.below(cells.len())].clone();
+            match self.rng.below(3) {
+                0 => self.add(c, iri("x:extra"), iri("x:o"), g),
+                1 => self.add(iri("x:s2"), iri("x:p"), c, g),
+                _ => self.add(c, rdf("first"), iri("x:second"), g),
+            }
+        }
+    }
+
+    fn big_bnodes(&mut self, g: &Option<T>) {
+        self.tags.push("big_bnodes");
+        match self.rng.below(4) {
+            0 => {
+                // deep nesting
+                let root = self.an_iri();
+                let d = self.rng.range(15, 60);
+                self.deep_chain(root, d, g);
+            }
+            1 => {
+                // a long cycle, tails hanging off it, possibly entered from outside
+                let k = self.rng.range(5, 30);
+                let nodes: Vec<T> = (0..k).map(|_| self.fresh()).collect();
+                for i in 0..k {
+                    let p = self.a_pred();
+                    self.add(nodes[i].clone(), p, nodes[(i + 1) % k].clone(), g);
+                }
+                for _ in 0..self.rng.range(1, 6) {
+                    let from = self.rng.pick(&nodes).clone();
+                    let d = self.rng.range(1, 12);
+                    self.deep_chain(from, d, g);
+                }
+                if self.rng.chance(1, 3) {
+                    let t = self.rng.pick(&nodes).clone();
+                    self.add(iri("x:s"), iri("x:p"), t, g);
+                }
+            }
+            2 => {
+                // a broad forest: many roots, many inlinable children, some shared
+                let mut all = vec![];
+                for k in 0..self.rng.range(10, 30) {
+                    let root = iri(&format!("http://ex.org/r{}", k));
+                    all.extend(self.tree(root, 3, g));
+                }
+                for _ in 0..self.rng.range(0, 4) {
+                    let t = self.rng.pick(&all).clone();
+                    self.add(iri("x:s"), iri("x:also"), t, g);
+                }
+            }
+            _ => {
+                // many blank nodes that must all be labelled (two incoming arcs each), interleaved with inlinable ones
+                let hub = self.fresh();
+                for _ in 0..self.rng.range(20, 80) {
+                    let b = self.fresh();
+                    self.add(hub.clone(), iri("x:p"), b.clone(), g);
+                    if self.rng.chance(1, 2) {
+                        self.add(iri("x:s"), iri("x:q"), b.clone(), g);
+                    }
+                    if self.rng.chance(1, 2) {
+                        let o = self.a_ground_object();
+                        self.add(b, iri("x:r"), o, g);
+                    }
+                }
+            }
+        }
+    }
+
+    /// one large dataset; returns nothing, fills `self.quads`
+    pub fn big(&mut self) {
+        let ngraphs = if self.trig { [1, 2, 5, 8, 14][self.rng.below(5)] } else { 1 };
+        let mut graphs: Vec<Option<T>> = vec![None];
+        for k in 1..ngraphs {
+            graphs.push(Some(match self.rng.below(6) {
+                0 => self.fresh(),
+                _ => iri(&format!("http://ex.org/g{}", k * 5 % 17)),
+            }));
+        }
+        if ngraphs > 1 && self.rng.chance(1, 3) {
+            graphs.remove(0); // no default graph at all
+        }
+        if ngraphs >= 5 {
+            self.tags.push("big_graphs");
+        }
+        for g in graphs.clone() {
+            let heavy = ngraphs <= 2 || self.rng.chance(1, 4);
+            if heavy {
+                match self.rng.below(4) {
+                    0 | 1 => self.big_subjects(&g),
+                    2 => self.big_list(&g),
+                    _ => self.big_bnodes(&g),
+                }
+            }
+            for _ in 0..self.rng.range(1, 3) {
+                self.fragment(&g);
+            }
+        }
+    }
+
     pub fn fragment(&mut self, g: &Option<T>) {
         match self.rng.below(20) {
             0 | 1 => self.plain(g),
@@ -553,7 +804,21 @@ impl<'a> B<'a> {
 }
 
 fn emit_ser(ctx: &mut GenCtx, trig: bool, pretty: bool, indent: &str, pm: &Pm, quads: &[Q]) {
-    let mut line = format!("ser {} {} {} {}", if trig { "trig" } else { "ttl" }, if pretty { 1 } else { 0 }, hex(indent), render_pm(pm));
+    emit_ser_api(ctx, trig, false, pretty, indent, pm, quads)
+}
+
+/// `alt`: the other entry points — `serialize_triples/quads` fed from a streaming (fallible) source instead of
+/// `serialize_graph/dataset`, and the prefix map handed over through `with_prefix_map(&[(Prefix<&str>, Iri<&str>)])`
+/// (`PrefixMap::iter` / `to_vec`) instead of `with_own_prefix_map`
+fn emit_ser_api(ctx: &mut GenCtx, trig: bool, alt: bool, pretty: bool, indent: &str, pm: &Pm, quads: &[Q]) {
+    let mut line = format!(
+        "ser {}{} {} {} {}",
+        if trig { "trig" } else { "ttl" },
+        if alt { "~" } else { "" },
+        if pretty { 1 } else { 0 },
+        hex(indent),
+        render_pm(pm)
+    );
     for q in quads {
         line.push(' ');
         line.push_str(&q.render());
@@ -664,7 +929,11 @@ pub fn generate(ctx: &mut GenCtx) {
     for i in 0..n {
         let trig = ctx.rng.chance(1, 2);
         let pretty = !ctx.rng.chance(1, 5);
-        let indent = if ctx.rng.chance(1, 2) { "  " } else { ps(&mut ctx.rng, INDENTS) };
+        let indent = match ctx.rng.below(24) {
+            0..=11 => "  ",
+            12 | 13 => ps(&mut ctx.rng, ODD_INDENTS),
+            _ => ps(&mut ctx.rng, INDENTS),
+        };
         let pm = if ctx.rng.chance(1, 2) { None } else { ctx.rng.pick(&pms).clone() };
         let (mut quads, tags) = {
             let mut b = B::new(&mut ctx.rng, trig);
@@ -698,9 +967,111 @@ pub fn generate(ctx: &mut GenCtx) {
         }
         ctx.stats.bump(if pretty { "mode.pretty" } else { "mode.stream" });
         ctx.stats.bump(if trig { "fmt.trig" } else { "fmt.ttl" });
+        if !pretty && tags.iter().any(|t| *t == "quoted_nested" || *t == "quoted_deep") {
+            ctx.stats.bump("stream.quoted_nested");
+        }
+        if !pretty && quads.iter().any(|q| matches!(q.g, Some(T::Bnode(_)))) {
+            ctx.stats.bump("stream.bnode_graph");
+        }
         if i < 4 {
             ctx.stats.sample(format!("{:?} {} quads", tags, quads.len()));
         }
-        emit_ser(ctx, trig, pretty, indent, &pm, &quads);
+        let alt = ctx.rng.chance(1, 6);
+        size_stats(ctx, &quads, indent, alt);
+        emit_ser_api(ctx, trig, alt, pretty, indent, &pm, &quads);
+    }
+    // ---- 5. large datasets
+    let n_big = if ctx.thorough { 600 } else { 60 };
+    for i in 0..n_big {
+        let trig = ctx.rng.chance(2, 3);
+        let pretty = !ctx.rng.chance(1, 6);
+        let indent = if ctx.rng.chance(3, 4) { "  " } else { ps(&mut ctx.rng, INDENTS) };
+        let pm = if ctx.rng.chance(1, 2) { None } else { ctx.rng.pick(&pms).clone() };
+        let (mut quads, tags, max_list, max_depth) = {
+            let mut b = B::new(&mut ctx.rng, trig);
+            b.big();
+            (b.quads, b.tags, b.max_list, b.max_depth)
+        };
+        for k in (1..quads.len()).rev() {
+            let j = ctx.rng.below(k + 1);
+            quads.swap(k, j);
+        }
+        quads.dedup();
+        for t in &tags {
+            if t.starts_with("big") {
+                ctx.stats.bump(&format!("shape.{}", t));
+            }
+        }
+        ctx.stats.bump("big.requests");
+        ctx.stats.bump(if pretty { "big.pretty" } else { "big.stream" });
+        if max_list >= 16 {
+            ctx.stats.bump("big.list>=16");
+        }
+        if max_depth >= 16 {
+            ctx.stats.bump("big.depth>=16");
+        }
+        if i < 2 {
+            ctx.stats.sample(format!("big {:?} {} quads", tags, quads.len()));
+        }
+        let alt = ctx.rng.chance(1, 6);
+        size_stats(ctx, &quads, indent, alt);
+        emit_ser_api(ctx, trig, alt, pretty, indent, &pm, &quads);
+    }
+}
+
+fn bnodes_of(t: &T, out: &mut std::collections::BTreeSet<String>) {
+    match t {
+        T::Bnode(b) => {
+            out.insert(b.clone());
+        }
+        T::Triple(b) => b.iter().for_each(|x| bnodes_of(x, out)),
+        _ => {}
+    }
+}
+
+/// distribution counters of the dataset sizes / configurations actually generated
+fn size_stats(ctx: &mut GenCtx, quads: &[Q], indent: &str, alt: bool) {
+    use std::collections::{BTreeMap, BTreeSet};
+    let bucket = |n: usize, edges: &[usize]| -> String {
+        for e in edges {
+            if n <= *e {
+                return format!("<={}", e);
+            }
+        }
+        format!(">{}", edges[edges.len() - 1])
+    };
+    let mut bn = BTreeSet::new();
+    let mut per_graph: BTreeMap<Option<T>, BTreeSet<T>> = BTreeMap::new();
+    let mut longest = 0;
+    for q in quads {
+        for t in [&q.s, &q.p, &q.o] {
+            bnodes_of(t, &mut bn);
+        }
+        if let Some(g) = &q.g {
+            bnodes_of(g, &mut bn);
+        }
+        per_graph.entry(q.g.clone()).or_default().insert(q.s.clone());
+        for t in [&q.s, &q.o] {
+            if let T::Lit(l, _) | T::Lang(l, _) = t {
+                longest = longest.max(l.chars().count());
+            }
+        }
+    }
+    ctx.stats.bump(&format!("size.quads{}", bucket(quads.len(), &[8, 32, 128])));
+    ctx.stats.bump(&format!("size.bnodes{}", bucket(bn.len(), &[0, 4, 16, 64])));
+    ctx.stats.bump(&format!("size.graphs{}", bucket(per_graph.len(), &[1, 4, 8])));
+    let subj = per_graph.values().map(|s| s.len()).max().unwrap_or(0);
+    ctx.stats.bump(&format!("size.subjects_in_a_graph{}", bucket(subj, &[3, 15, 63])));
+    ctx.stats.bump(&format!("size.longest_literal{}", bucket(longest, &[8, 24, 64])));
+    let turtle_ws = |c: char| matches!(c, ' ' | '\t' | '\r' | '\n');
+    ctx.stats.bump(if indent.chars().all(turtle_ws) {
+        "indent.turtle_ws"
+    } else if indent.chars().all(char::is_whitespace) {
+        "indent.other_unicode_ws"
+    } else {
+        "indent.not_ws"
+    });
+    if alt {
+        ctx.stats.bump("api.streaming_source+borrowed_prefix_map");
     }
 }
